@@ -51,9 +51,12 @@ func newBufferPool(size int) *bufferPool {
 
 // Get retrieves a buffer from the pool.
 func (bp *bufferPool) Get() []byte {
-	buf := bp.xmitBuf.Get().([]byte)
-	verifPoolGet(buf)
-	return buf
+	if verifPoolHooked {
+		buf := bp.xmitBuf.Get().([]byte)
+		verifPoolGet(buf)
+		return buf
+	}
+	return bp.xmitBuf.Get().([]byte)
 }
 
 // Put returns a buffer to the pool.
